@@ -504,6 +504,34 @@ func ruleMemberLoops(keep func(fnKey string) bool, floorD2, floorD3 int) ruleFun
 						return true
 					})
 				}
+				// the loop may run over one slice and read pairs of another (for i := range dists { f(ls[i], ls[i+1]) })
+				if cl.ivar != nil && len(offs) < 2 {
+					other := map[string]map[int64]bool{}
+					var body ast.Node
+					switch s := li.stmt.(type) {
+					case *ast.ForStmt:
+						body = s.Body
+					case *ast.RangeStmt:
+						body = s.Body
+					}
+					ast.Inspect(body, func(n ast.Node) bool {
+						if ie, ok := n.(*ast.IndexExpr); ok && exprKey(ie.X) != exprKey(cl.base) && c.P.memberSlice(pkg.TypesInfo.TypeOf(ie.X)) {
+							if off, ok := indexOffset(pkg, ie.Index, cl.ivar); ok {
+								if other[exprKey(ie.X)] == nil {
+									other[exprKey(ie.X)] = map[int64]bool{}
+								}
+								other[exprKey(ie.X)][off] = true
+							}
+						}
+						return true
+					})
+					for x, o := range other {
+						if len(o) >= 2 {
+							nD3++
+							c.R.Add("D3-segment-loop", cons, OutOfScope, pos, "reads consecutive elements of "+x+" but is bounded by the length of "+exprKey(cl.base)+": the relation between the two lengths is not decided here")
+						}
+					}
+				}
 				var offList []int64
 				for o := range offs {
 					offList = append(offList, o)
